@@ -121,13 +121,30 @@ func (g *DirectedTargetGraph) GetDependencies(target model.BuildNode) []model.Bu
 	return g.inEdges[target.GetLabel()]
 }
 
+// GetTargetDependencies returns the targets the given node depends on.
+// Aliases are followed so that a dependency declared through an alias
+// resolves to the target the alias points to.
 func (g *DirectedTargetGraph) GetTargetDependencies(node model.BuildNode) []*model.Target {
 	var targets []*model.Target
-	for _, dependency := range g.GetDependencies(node) {
-		if target, ok := dependency.(*model.Target); ok {
-			targets = append(targets, target)
+	seen := make(map[label.TargetLabel]bool)
+	var collect func(node model.BuildNode)
+	collect = func(node model.BuildNode) {
+		for _, dependency := range g.GetDependencies(node) {
+			switch typed := dependency.(type) {
+			case *model.Target:
+				if !seen[typed.Label] {
+					seen[typed.Label] = true
+					targets = append(targets, typed)
+				}
+			case *model.Alias:
+				if !seen[typed.Label] {
+					seen[typed.Label] = true
+					collect(typed)
+				}
+			}
 		}
 	}
+	collect(node)
 	return targets
 }
 
